@@ -81,6 +81,11 @@ def run(ctx):
     ck.rule('C06-D4', 'WARCRecorder.__init__ runs the journal check before any archive/CDX file is started; the check '
                       'raises iff the journal glob is non-empty and its pattern matches the journal suffix')
 
+    # an error raised while the record is being copied reaches the rollback handler: the context managers the record iterator runs
+    # under (reset_file_offset around the block file) let exceptions through
+    from .common import contextmanager_swallow_lint
+    contextmanager_swallow_lint(ctx, 'C06-D3', ['wpull.util:reset_file_offset'])
+
     # ------------------------------------------------------------------ D1
     append_sites = []
     for fi in [f for f in repo.funcs.values() if f.module is mod]:
